@@ -60,10 +60,23 @@ func writerFaultScenario(in input, chunks [][]byte, failAt int, short bool) scen
 }
 
 func readerFaultScenario(in input, failAfter int, withLast bool, readSize int) scenario {
+	return readerFaultScenarioErr(in, failAfter, withLast, readSize, 0)
+}
+
+// faultIdentities: what a failing source or sink fails with. The wrappers create and test for io.ErrClosedPipe themselves,
+// so a source or sink failing with exactly that value (or wrapping it) is an identity of its own.
+var faultIdentities = []error{errors.New("injected I/O failure"), io.ErrClosedPipe, fmt.Errorf("relay: %w", io.ErrClosedPipe), fmt.Errorf("frame: %w", io.ErrUnexpectedEOF)}
+var faultIdentityNames = []string{"plain", "io.ErrClosedPipe", "wraps-io.ErrClosedPipe", "wraps-io.ErrUnexpectedEOF"}
+
+func readerFaultScenarioErr(in input, failAfter int, withLast bool, readSize int, ident int) scenario {
 	name := fmt.Sprintf("Reader/failing-source %s %q failAfter=%d withLast=%v readSize=%d", in.mt, in.in, failAfter, withLast, readSize)
+	if ident != 0 {
+		name += " error=" + faultIdentityNames[ident]
+	}
 	return scenario{name, func() (func(), func(*vsync.Sched) ([]string, string)) {
 		var finalErr error
 		var got []byte
+		errInjected := faultIdentities[ident]
 		body := func() {
 			m := newRegistry()
 			src := &chunkReader{chunks: [][]byte{[]byte(in.in)[:failAfter]}, failErr: errInjected, withLast: withLast}
@@ -176,6 +189,11 @@ func c14Scenarios(tier string) []scenario {
 				if tier == "thorough" {
 					scs = append(scs, readerFaultScenario(in, k, wl, 64))
 				}
+			}
+		}
+		for ident := 1; ident < len(faultIdentities); ident++ {
+			for _, k := range []int{0, len(in.in) / 2, len(in.in)} {
+				scs = append(scs, readerFaultScenarioErr(in, k, false, 2, ident))
 			}
 		}
 		for _, kind := range []string{"ResponseWriter", "MiddlewareWithError"} {
